@@ -30,32 +30,45 @@ def _is_result_test(t):
     return "self.result" in s
 
 
-def has_gate(prog, fi, seen=None):
-    """index of the first top-level statement that enforces 'a run happened' (raise unless self.result), or None"""
+STORE_PREFIX = ("self.run_params.", "self.result.")
+
+
+def _stores(stmt):
+    for n in ast.walk(stmt):
+        tg = n.targets if isinstance(n, ast.Assign) else ([n.target] if isinstance(n, (ast.AugAssign, ast.AnnAssign)) else [])
+        for t in tg:
+            if isinstance(t, ast.Attribute) and astq.src(t).startswith(STORE_PREFIX):
+                return True
+    return False
+
+
+def gate_status(prog, fi, seen=None):
+    """With `self.result` seeded as None (no run happened): 'gated' if every path raises before the first store into
+    run_params / result (directly, or inside the same-named base method / a private helper called first), 'store-first' if a store
+    is reached before any raise, 'ungated' if the method can complete without raising."""
     seen = seen or set()
     if fi.qual in seen:
-        return None
-    seen.add(fi.qual)
-    for i, s in enumerate(fi.node.body):
-        if isinstance(s, ast.If) and _is_result_test(s.test) and any(isinstance(x, ast.Raise) for x in s.body):
-            return i
-        if isinstance(s, ast.Expr) and isinstance(s.value, ast.Call):
-            r = prog.resolve_call(fi, s.value)
-            if isinstance(r, FuncInfo) and r.node.name == fi.node.name and has_gate(prog, r, seen) is not None:
-                # a super()/explicit base call of the same method that has the gate as first effect
-                if first_store(r) is None or has_gate(prog, r, set()) < first_store(r):
-                    return i
-    return None
-
-
-def first_store(fi):
-    for i, s in enumerate(fi.node.body):
-        for n in ast.walk(s):
-            tg = n.targets if isinstance(n, ast.Assign) else ([n.target] if isinstance(n, (ast.AugAssign, ast.AnnAssign)) else [])
-            for t in tg:
-                if isinstance(t, ast.Attribute) and astq.src(t).startswith(("self.run_params.", "self.result.")):
-                    return i
-    return None
+        return "ungated"
+    seen = seen | {fi.qual}
+    stmts = astq.prune(fi.node.body, {"self.result": None})
+    for i, s in enumerate(stmts):
+        if isinstance(s, ast.Expr) and isinstance(s.value, ast.Constant):
+            continue
+        out = astq._outcomes([s])
+        if "fall" not in out and all(o.startswith("raise:") for o in out):
+            return "gated"
+        if _stores(s):
+            return "store-first"
+        # a call of the base implementation / a private helper that is itself gated
+        for c in [n for n in ast.walk(s) if isinstance(n, ast.Call)]:
+            r = prog.resolve_call(fi, c)
+            if isinstance(r, FuncInfo) and (r.node.name == fi.node.name or r.node.name.startswith("_")) and r.cls is not None:
+                st = gate_status(prog, r, seen)
+                if st == "gated":
+                    return "gated"
+                if st == "store-first":
+                    return "store-first"
+    return "ungated"
 
 
 def check(prog, run):
@@ -89,31 +102,37 @@ def gate(prog, run):
                 order.append((i, n.func.attr, n))
     names = [x[1] for x in order]
     ok = names == ["_pre_run", "run", "_set_result"] and order[0][0] < order[1][0] < order[2][0]
+    if not ok and "run" not in names:
+        ok = None          # the run() call itself is not in this function: structure not recognised
     run.ob("R-gate", rb.qual, "_pre_run() < run() < _set_result()", ok, f"call order {names}", witness=str(names), file=f, node=rb.node)
     if ok:
-        # the stored result is what run() returned
+        # the three calls address the same algorithm object, and the stored result is what run() returned
+        recv = [astq.dump(astq.expr_at(rb, x[2], x[2].func.value)) for x in order]
+        run.ob("R-gate", rb.qual, "the three calls address the same algorithm", len(set(recv)) == 1, f"receivers `{[astq.src(x[2].func.value, 30) for x in order]}`",
+               witness=str(len(set(recv))), file=f, node=rb.node)
         setcall = order[2][2]
-        a = setcall.args[0] if setcall.args else None
+        a = setcall.args[0] if setcall.args else astq.kwarg(setcall, "result")
         x = astq.expr_at(rb, setcall, a) if a is not None else None
-        ok2 = x is not None and isinstance(x, ast.Call) and isinstance(x.func, ast.Attribute) and x.func.attr == "run"
+        ok2 = None
+        if x is not None:
+            ok2 = isinstance(x, ast.Call) and isinstance(x.func, ast.Attribute) and x.func.attr == "run"
+            if not ok2 and not isinstance(x, (ast.Call, ast.Name, ast.Constant, ast.Attribute)):
+                ok2 = None
         run.ob("R-gate", rb.qual, "_set_result stores what run() returned", ok2, f"`{astq.src(x, 50) if x is not None else None}`", witness=astq.src(x, 50) if x is not None else "none", file=f, node=setcall)
     base = prog.cls(BASEALG)
     pr = base.methods.get("_pre_run")
     if pr is None:
         raise AnalysisError("anchor lost: BaseAlgorithm._pre_run")
     fp = rel(prog.mods[pr.mod].path)
-    conds = []
-    for s in pr.node.body:
-        if isinstance(s, ast.If) and any(isinstance(x, ast.Raise) for x in s.body):
-            r = [x for x in s.body if isinstance(x, ast.Raise)][0]
-            exc = astq.src(r.exc.func) if isinstance(r.exc, ast.Call) else astq.src(r.exc) if r.exc else "?"
-            conds.append((astq.src(s.test, 80), exc, s))
-    t_all = " ; ".join(c[0] for c in conds)
+    excs = set()
     for what in ("self.fs", "self.data", "self.run_params"):
-        ok = any(what in c[0] for c in conds)
-        run.ob("R-gate", pr.qual, f"raises when {what} is missing", ok, f"guards: {t_all}", witness=t_all[:80], file=fp, node=pr.node)
-    okv = bool(conds) and all(c[1] == "ValueError" for c in conds)
-    run.ob("R-gate", pr.qual, "raises ValueError", okv, f"exceptions {[c[1] for c in conds]}", witness=str([c[1] for c in conds]), file=fp, node=pr.node)
+        out = astq.outcomes(pr.node.body, {what: None})
+        okw = all(o.startswith("raise:") for o in out)
+        excs |= {o.split(":", 1)[1] for o in out if o.startswith("raise:")}
+        run.ob("R-gate", pr.qual, f"raises when {what} is missing", okw, f"outcomes with {what} = None: {sorted(out)}", witness=str(sorted(out)), file=fp, node=pr.node)
+    allr = {astq._exc_name(n) for n in ast.walk(pr.node) if isinstance(n, ast.Raise)}
+    okv = bool(allr) and allr == {"ValueError"}
+    run.ob("R-gate", pr.qual, "raises ValueError", okv, f"exceptions {sorted(allr)}", witness=str(sorted(allr)), file=fp, node=pr.node)
     # mpe / mpe_from_plot overrides
     for ci in algo_classes(prog):
         for name in ("mpe", "mpe_from_plot"):
@@ -121,12 +140,12 @@ def gate(prog, run):
             if m is None:
                 continue
             fm = rel(prog.mods[m.mod].path)
-            g = has_gate(prog, m)
-            st = first_store(m)
-            ok = g is not None and (st is None or g < st)
-            why = "gate before the first store" if ok else ("no check for a prior run: run parameters are overwritten, then AttributeError on result=None" if g is None
-                                                           else "the first store into run_params/result precedes the check")
-            run.ob("R-gate", m.qual, "prior-run check precedes the first store", ok, why, witness="ungated" if g is None else "late gate", file=fm, node=m.node)
+            st = gate_status(prog, m)
+            ok = st == "gated"
+            why = "every path raises before the first store when no run has happened" if ok else (
+                "no check for a prior run: run parameters are overwritten, then AttributeError on result=None" if st == "ungated"
+                else "the first store into run_params/result precedes the check")
+            run.ob("R-gate", m.qual, "prior-run check precedes the first store", ok, why, witness="ungated" if st == "ungated" else "late gate", file=fm, node=m.node)
 
 
 # ----------------------------------------------------------------------------- reachability
@@ -337,19 +356,51 @@ def poser(prog, run):
     raises = [n for n in ast.walk(g.node) if isinstance(n, ast.Raise)]
     kinds = [astq.src(r.exc.func) if isinstance(r.exc, ast.Call) else astq.src(r.exc) if r.exc is not None else "re-raise" for r in raises]
     run.ob("R-poser", g.qual, "every raise is ValueError", bool(raises) and all(k == "ValueError" for k in kinds), f"{len(raises)} raise statements: {sorted(set(kinds))}", witness=str(sorted(set(kinds))), file=f, node=g.node)
-    # count guard
-    guard = False
-    for s in g.node.body:
-        if isinstance(s, ast.If) and any(isinstance(x, ast.Raise) for x in s.body):
-            t = astq.src(s.test)
-            if "len(" in t and (("<= 1" in t) or ("< 2" in t)):
-                guard = True
-    run.ob("R-poser", g.qual, "0 and 1 setups are rejected", guard, "`len(setups) <= 1` guard" if guard else "no guard rejecting fewer than two setups", witness="no-guard", file=f, node=g.node)
+    # count guard: the first-level raise guards, decided by evaluating the (expanded) test for 0, 1 and 2 setups
+    pos = astq.params_of(g.node)[0]
+    psetups = [p_ for p_ in pos if p_ != "self"][0] if len(pos) > 1 else None
+
+    class _LenTo(ast.NodeTransformer):
+        def __init__(self, n):
+            self.n = n
+
+        def visit_Call(self, node):
+            self.generic_visit(node)
+            if isinstance(node.func, ast.Name) and node.func.id == "len" and len(node.args) == 1 and isinstance(node.args[0], ast.Name) and node.args[0].id == psetups:
+                return ast.Constant(value=self.n)
+            return node
+    import copy as _copy
+    guard = None
+    seen_len_test = False
+    for s_ in g.node.body:
+        if isinstance(s_, ast.If) and any(isinstance(x, ast.Raise) for x in s_.body):
+            t = astq.expr_at(g, s_, s_.test)
+            if not any(isinstance(c, ast.Call) and isinstance(c.func, ast.Name) and c.func.id == "len" and c.args and isinstance(c.args[0], ast.Name) and c.args[0].id == psetups for c in ast.walk(t)):
+                continue
+            seen_len_test = True
+            vals = [astq.const_test(_LenTo(n).visit(_copy.deepcopy(t)), {}) for n in (0, 1, 2)]
+            if all(v is not astq._UNDEC for v in vals):
+                if vals[0] and vals[1] and not vals[2]:
+                    guard = True
+                elif guard is None:
+                    guard = False
+    if guard is None and not seen_len_test:
+        # no test on the number of setups at all
+        guard = False if not any("len(" in astq.src(astq.expr_at(g, s_, s_.test), 200) for s_ in g.node.body if isinstance(s_, ast.If)) else None
+    run.ob("R-poser", g.qual, "0 and 1 setups are rejected", guard, "the guard on len(setups) raises for 0 and 1 and accepts 2" if guard else "no guard rejecting fewer than two setups", witness="no-guard", file=f, node=g.node)
     # yields dominated by the run / Fn check in the same loop
     yields = [n for n in ast.walk(g.node) if isinstance(n, (ast.Yield, ast.YieldFrom))]
     oky = bool(yields)
     why_dep = ""
     pm = astq.parent_map(g.node)
+
+    def guard_text(st):
+        """source of the statement with the tests of its raise-guards expanded (helpers inlined)"""
+        out = [astq.src(st, 600)]
+        for n in ast.walk(st):
+            if isinstance(n, ast.If):
+                out.append(astq.src(astq.expr_at(g, n, n.test), 600))
+        return " ".join(out)
     for y in yields:
         loop = astq.enclosing(pm, y, (ast.For,))
         if loop is None:
@@ -360,21 +411,22 @@ def poser(prog, run):
             ystmt = pm[ystmt]
         idx = loop.body.index(ystmt) if ystmt in loop.body else -1
         before = loop.body[:idx] if idx >= 0 else []
-        chk = any(isinstance(x, ast.Raise) for s in before for x in ast.walk(s)) and any("result" in astq.src(s, 400) and "Fn" in astq.src(s, 400) for s in before)
+        chk = any(isinstance(x, ast.Raise) for s_ in before for x in ast.walk(s_)) and any("result" in guard_text(s_) and "Fn" in guard_text(s_) for s_ in before)
         if not chk:
             oky = False
         # the check must be about the setup that is yielded, not about some other setup
         yv = y.value.id if isinstance(y.value, ast.Name) else None
-        checking = [s for s in before if any(isinstance(x, ast.Raise) for x in ast.walk(s))]
-        if yv is not None and checking and not any(isinstance(x, ast.Name) and x.id == yv for s in checking for x in ast.walk(s)):
+        checking = [s_ for s_ in before if any(isinstance(x, ast.Raise) for x in ast.walk(s_))]
+        if yv is not None and checking and not any(isinstance(x, ast.Name) and x.id == yv for s_ in checking for x in ast.walk(s_)):
             oky = False
             why_dep = f"the check before `yield {yv}` never looks at `{yv}`"
     run.ob("R-poser", g.qual, "each setup is yielded only after the run / modes-extracted check of THAT setup", oky, f"{len(yields)} yield(s)" + (f": {why_dep}" if not oky and why_dep else ""),
            witness="unchecked yield", file=f, node=g.node)
     # names count check
-    names = any(isinstance(s, ast.If) and "self.names" in astq.src(s.test) and "len(" in astq.src(s.test) and any(isinstance(x, ast.Raise) for x in s.body) for s in ast.walk(g.node))
+    guards = [(s_, astq.src(astq.expr_at(g, s_, s_.test), 600)) for s_ in ast.walk(g.node) if isinstance(s_, ast.If) and any(isinstance(x, ast.Raise) for x in s_.body)]
+    names = any("self.names" in t and "len(" in t for s_, t in guards)
     run.ob("R-poser", g.qual, "one name per algorithm is enforced", names, "len(self.names) compared with the number of algorithms" if names else "no check on the number of names", witness="no-names-check", file=f, node=g.node)
-    types = any(isinstance(s, ast.If) and "type(" in astq.src(s.test, 300) and any(isinstance(x, ast.Raise) for x in s.body) for s in ast.walk(g.node))
+    types = any("type(" in t for s_, t in guards)
     run.ob("R-poser", g.qual, "identical algorithm types in identical order are enforced", types, "type lists compared" if types else "no comparison of algorithm types", witness="no-type-check", file=f, node=g.node)
     # exhausted in __init__
     exhausted = False
